@@ -462,7 +462,7 @@ def run_world(eng, topo, cfg, behaviour=None, hook=None, fault=None, rules=None,
                sync=set(cfg.get('sync', ())), future_outputs=cfg.get('future_outputs', False),
                no_self=set(cfg.get('no_self', ())), behaviour=behaviour, hook=hook, fault=fault,
                quiet_after_K=cfg.get('quiet_after_K', True),
-               bounded_times=bool(cfg.get('cache', True) or cfg.get('debug', False)), gain=dict(cfg.get('gain', {})))
+               bounded_times=bool(cfg.get('cache', True) or cfg.get('debug', False)), gain=dict(cfg.get('gain', {})), linger=set(cfg.get('linger', ())))
     CTX.update(CTX_EXTRA)
     r = Run()
     r.ref, r.loop, r.log, r.until = ref, loop, log, until
